@@ -11,9 +11,16 @@ Every theorem quantifies over all reachable states / all event sequences; nothin
 Atomicity: the model makes every public method ONE transition.  That rests on the regenerated structural facts of
 `Generated/VruLocks.lean` (harness/gen_vru.py, `ast` pass over vru_clustering.py), discharged by `decide` in
 `public_methods_atomic` below: a public method that loses its `with self._lock:` re-opens that obligation.
+
+Round 4 - received enumerations: what a received VAM can carry is defined by the ASN.1 module, not by the Python enums.
+`Generated/VamEnums.lean` (harness/gen_vru.py) re-reads the complete reason tables from the repository's ASN.1 text and
+the conversions of received data into a Python Enum that the receive path performs; `received_enumerations_total`
+(`decide`) demands that every such conversion is total on the ASN.1 type, `breakup_frees_every_asn1_reason` instantiates
+the break-up clause with EVERY value of the table (also those the Python enum does not list, e.g. `max`).
 -/
 import FlexModel.Vru.ClusterLemmas
 import Generated.VruLocks
+import Generated.VamEnums
 import FlexModel.Vru.ClusterAtomic
 
 namespace Props.C18
@@ -219,6 +226,50 @@ theorem breakup_cpm_bounded_witness :
     let s' := run {} (St.init 1000000 128)
       (passiveWitness ++ [.recv cpmBreakupVam, .tick 1000, .recv plain, .update, .tick 1000, .recv plain, .update])
     s'.state = .standalone ∧ shouldTransmit s' = true := by decide
+
+/-! ## Received enumerations (round 4) -/
+
+/-- RECEIVED ENUMERATIONS ARE TOTAL (regenerated from the source on every run).  Wherever the receive path (the methods
+reachable from `on_received_vam`) converts received data into a Python `Enum`, that enum lists EVERY identifier of the
+ASN.1 ENUMERATED of the same name: a conversion that raises for a value the decoder can deliver makes the manager drop a
+valid VAM - break-up announcement and heartbeat included (seeded change C18-m4: `ClusterBreakupReason(<received>)`, the
+Python enum lacks the ASN.1 value `max`).  In the code as it is there is no conversion at all: reasons are compared as
+strings, so every unknown reason takes the generic branch the model has (`r ≠ breakupCpm`). -/
+theorem received_enumerations_total :
+    ∀ c ∈ Generated.VamEnums.rxEnumConversions, c.2.2 = [] := by decide
+
+/-- the reason numbers of the model are those of the repository's ASN.1 table, the Python enums list ASN.1
+identifiers only, and the numbers of the break-up table are pairwise different (a number identifies the reason) -/
+theorem reason_tables :
+    ("receptionOfCpmContainingCluster", breakupCpm) ∈ Generated.VamEnums.breakupReasons ∧
+    ("notProvided", breakupNotProvided) ∈ Generated.VamEnums.breakupReasons ∧
+    ("clusterDisbandedByLeader", leaveDisbandedByLeader) ∈ Generated.VamEnums.leaveReasons ∧
+    (∀ v ∈ Generated.VamEnums.pyBreakupReasons, v ∈ Generated.VamEnums.breakupReasons.map (·.1)) ∧
+    (∀ v ∈ Generated.VamEnums.pyLeaveReasons, v ∈ Generated.VamEnums.leaveReasons.map (·.1)) ∧
+    (Generated.VamEnums.breakupReasons.map (·.2)).Nodup ∧
+    (∀ r ∈ Generated.VamEnums.breakupReasons, r.1 ≠ "receptionOfCpmContainingCluster" → r.2 ≠ breakupCpm) := by
+  decide
+
+/-- BREAK-UP, EVERY VALUE THE DECODER CAN DELIVER.  The leader announces the break-up with ANY reason of the ASN.1
+table other than receptionOfCpmContainingCluster (known finding C18-KF1) - also one the Python enum of the repository
+does not list: the member is stand-alone and transmitting by the next update. -/
+theorem breakup_frees_every_asn1_reason {var : Variant} (ht : var.tupleFails = false)
+    {s : St} {v : Vam} {o : OpC} (d : Nat) (r : String × Nat) (hr : r ∈ Generated.VamEnums.breakupReasons)
+    (hn : r.1 ≠ "receptionOfCpmContainingCluster")
+    (hp : s.state = .passive) (hl : s.leader = some v.sender) (ho : v.op = some o) (hb : o.breakup = some r.2) :
+    let s' := run var s [.recv v, .tick d, .update]
+    s'.state = .standalone ∧ shouldTransmit s' = true :=
+  breakup_frees_partial ht d hp hl ho hb (reason_tables.2.2.2.2.2.2 r hr hn)
+
+/-- non-vacuity: the table has reasons other than CPM, and for each of them a member reached through the public API is
+freed by the leader's announcement (the run is computed for every row of the regenerated table) -/
+example :
+    (∃ r ∈ Generated.VamEnums.breakupReasons, r.1 ≠ "receptionOfCpmContainingCluster") ∧
+    ∀ r ∈ Generated.VamEnums.breakupReasons, r.1 ≠ "receptionOfCpmContainingCluster" →
+      (run {} (St.init 1000000 128) (passiveWitness ++
+        [.recv { cpmBreakupVam with op := some { join := none, leave := none, breakup := some r.2 } }, .tick 50, .update])).state
+        = .standalone := by
+  decide
 
 /-- Where membership and the leader-lost timer come from: a step ends in passive only if the station was passive
 with unchanged leader / cluster / timer, or the event is the reception of a cluster VAM (information container)
